@@ -1969,3 +1969,37 @@ def gen_percolate():
     return ('percolate: statements of optimal_percolating_path (axes from the letters, rejection of no axis, tiling, graph with the default threshold, image of the peak, '
             'loop with skip on no path and strict improvement, dims restored); tiling and image = Model.C10.tile_dims / perc_stop; the selection returns a cost that is '
             'attained and minimal over the peaks that have a path, and nothing iff none has (gen_best_minimal, gen_best_none)', ok, 'ok' if ok else log[-800:])
+
+
+# ---------------------------------------------------------------- unit: shape of speed / amplitudes / vibration_amplitude (C14)
+def gen_amp_shape():
+    """Statement-level check against the structure Model.C14 transcribes: speed = np.diff(distances, prepend=0); per atom the signs of the speed, the
+    cyclic comparison with the next frame, first and last split dropped, np.array_split at the following index, one sum per piece; vibration amplitude =
+    standard deviation of all amplitudes."""
+    try:
+        tree = _parse('metrics.py')
+        sp = [ast.unparse(s) for s in _stmts(_find_func(tree, 'TrajectoryMetrics', 'speed'))]
+        if sp != ['distances = self.trajectory.distances_from_base_position()', 'return np.diff(distances, prepend=0)']:
+            raise Unsupported('speed: ' + ' | '.join(sp)[:200])
+        f = _find_func(tree, 'TrajectoryMetrics', 'amplitudes')
+        st = _stmts(f)
+        src = [ast.unparse(s) for s in st]
+        if len(st) != 4 or src[0] != 'amplitudes = []' or src[1] != 'speed = self.speed()' or src[3] != 'return np.asarray(amplitudes)' or not isinstance(st[2], ast.For):
+            raise Unsupported('amplitudes: ' + ' | '.join(src)[:300])
+        loop = st[2]
+        if ast.unparse(loop.target) != '(i, speed_range)' or ast.unparse(loop.iter) != 'enumerate(speed)':
+            raise Unsupported('amplitudes: loop header ' + ast.unparse(loop.target) + ' in ' + ast.unparse(loop.iter))
+        body = [ast.unparse(s) for s in loop.body]
+        want = ['signs = np.sign(speed_range)', 'splits = np.where(signs != np.roll(signs, shift=-1))[0]', 'subarrays = np.array_split(speed_range, splits[1:-1] + 1)',
+                'amplitudes.extend([np.sum(array) for array in subarrays])']
+        if body != want:
+            k = next((i for i, (a, b) in enumerate(zip(body, want)) if a != b), min(len(body), len(want)))
+            raise Unsupported('amplitudes loop statement %d: %s' % (k, body[k][:140] if k < len(body) else '<missing>'))
+        va = [ast.unparse(s) for s in _stmts(_find_func(tree, 'TrajectoryMetrics', 'vibration_amplitude'))]
+        if 'amplitudes = self.amplitudes()' not in va or 'vibration_amp = np.std(amplitudes)' not in va or va[-1] != 'return vibration_amp' \
+                or "vibration_amp = FloatWithUnit(vibration_amp, 'ang')" not in va:
+            raise Unsupported('vibration_amplitude: ' + ' | '.join(va)[:300])
+    except Unsupported as e:
+        return ('ampshape', False, f'translator: unsupported {e}')
+    return ('ampshape: statements of TrajectoryMetrics.speed, amplitudes (signs, cyclic comparison with the next frame, first and last split dropped, array_split at '
+            'the following index, one sum per piece) and vibration_amplitude (standard deviation of all amplitudes, in Angstrom) are the ones Model.C14 transcribes', True, 'ok')
